@@ -17,6 +17,13 @@ ALLOWED_PROBE_CALLS = {
     ("_lowlevel.py", "_check_trickery_available"): {"send"},   # gen.send(None) on the self-test generator
 }
 MEMO_DECORATORS = {"lru_cache", "cache", "cached_property", "singledispatchmethod_cache"}
+# process-wide interpreter state an observation must leave alone (C06: "pure observation"): calls that switch the cyclic
+# collector, tracing / profiling, the switch interval, the recursion limit, signal handlers, warning filters
+STATE_MUTATORS = {("gc", "enable"), ("gc", "disable"), ("gc", "collect"), ("gc", "set_threshold"), ("gc", "freeze"), ("gc", "unfreeze"),
+                  ("gc", "set_debug"), ("sys", "settrace"), ("sys", "setprofile"), ("sys", "setswitchinterval"), ("sys", "setrecursionlimit"),
+                  ("sys", "set_asyncgen_hooks"), ("sys", "set_coroutine_origin_tracking_depth"), ("threading", "settrace"),
+                  ("threading", "setprofile"), ("signal", "signal"), ("signal", "setitimer"), ("warnings", "simplefilter"),
+                  ("warnings", "filterwarnings"), ("warnings", "resetwarnings"), ("os", "environ")}
 CLOCK_RNG = {"time", "monotonic", "perf_counter", "random", "randint", "choice", "shuffle", "uuid4", "urandom"}
 
 
@@ -35,7 +42,7 @@ def _enclosing_top(tree, fn):
 
 def static_obligations():
     out = []        # (name, ok, detail)
-    bad_memo, bad_resume, bad_clock, bad_global = [], [], [], []
+    bad_memo, bad_resume, bad_clock, bad_global, bad_state = [], [], [], [], []
     module_level_mutables = {}
     for fname in PKG_FILES:
         path = os.path.join(source.REPO, "stackscope", fname)
@@ -74,6 +81,10 @@ def static_obligations():
                 if isinstance(n, ast.Call) and isinstance(n.func, ast.Attribute) and n.func.attr in CLOCK_RNG and \
                         isinstance(n.func.value, ast.Name) and n.func.value.id in ("time", "random", "uuid", "os"):
                     bad_clock.append(f"{fname}:{fn.name}:{n.lineno} calls {ast.unparse(n.func)}")
+                # (3b) no switch of process-wide interpreter state
+                if isinstance(n, ast.Call) and isinstance(n.func, ast.Attribute) and isinstance(n.func.value, ast.Name) and \
+                        (n.func.value.id, n.func.attr) in STATE_MUTATORS:
+                    bad_state.append(f"{fname}:{fn.name}:{n.lineno} calls {ast.unparse(n.func)}()")
                 # (4) stores into module-level containers / globals: only the known registries, with non-stack-derived values
                 if isinstance(n, ast.Global):
                     for g in n.names:
@@ -94,6 +105,7 @@ def static_obligations():
     out.append(("C06.effects.no_resuming_call_on_targets", not bad_resume, "; ".join(bad_resume)))
     out.append(("C06.deterministic.no_clock_or_rng", not bad_clock, "; ".join(bad_clock)))
     out.append(("C06.no_retention.stores_into_module_state_are_whitelisted", not bad_global, "; ".join(bad_global)))
+    out.append(("C06.effects.no_switch_of_process_wide_interpreter_state", not bad_state, "; ".join(bad_state)))
     # (5) helpers closed: the probe async generator is driven to completion and the probe coroutines are closed, on every path
     gpath = os.path.join(source.REPO, "stackscope", "_glue.py")
     gsrc = ast.parse(open(gpath).read())
